@@ -300,8 +300,9 @@ class Model:
             self.recipes[st["target"]]["other"].append(st)
             if self.assembled and st["target"] in self.added:
                 self.stale_reasons.add("attr")
-        elif op == "geometry":
-            self.geometry.append(st)
+        elif op in ("geometry", "add_geometry"):
+            # (a user's declaration: no assembly creates it and none may take it away)
+            self.geometry.append(dict(st, op="geometry"))
         elif op == "add":
             if st["target"] in self.added or (st["target"] not in self.recipes and st["target"] not in self.shapes):
                 raise IllFormed("add")
@@ -586,11 +587,16 @@ def gen_history(seed: int, faults: str) -> Dict[str, Any]:
             cand.append(("modify_patch", 2))
         cand.append(("default_patch", 1))
         cand.append(("merge", 1))
+        cand.append(("add_geometry", 0.7))
         if can_write:
             cand.append(("write", 5))
             if p_fault:
                 cand.append(("write_fail", 12 * p_fault))
         kind = rs.weighted(cand)
+        if kind == "add_geometry":
+            gname = rs.pick(["extra", "pipe", "terrain", "hull"])
+            do({"op": "add_geometry", "name": gname, "props": [rs.pick(["type triSurfaceMesh", "type searchablePlane"]), f"name {gname}", f'file "{gname}_{rs.randint(1, 3)}.stl"']})
+            continue
         if kind == "add":
             do({"op": "add", "target": pool.pop(0)})
         elif kind == "delete":
